@@ -48,3 +48,36 @@ if os.path.exists(res):
     out+=["","killed %d, survived %d, discarded by the repository's own tests %d, other %d"%(k,s,d,len(latest)-k-s-d),""]
     open(os.path.join(here,'mutants','RESULTS.md'),'w').write('\n'.join(out))
     print('mutants/RESULTS.md: killed',k,'survived',s,'discarded',d)
+
+# ---- systematic mutants (mutants/AUTO_RESULTS.*.txt)
+auto=sorted(glob.glob(os.path.join(here,'mutants','AUTO_RESULTS.*.txt')))
+if auto:
+    tri=json.load(open(os.path.join(here,'mutants','auto_triage.json')))['patterns']
+    latest={}
+    for f in auto:
+        for l in open(f):
+            l=l.rstrip('\n')
+            if ' ' not in l or '__auto_' not in l.split(' ',1)[0]: continue
+            name,rest=l.split(' ',1); latest[name]=rest
+    k=sum(1 for r in latest.values() if r.startswith('KILLED'))
+    d=[n for n,r in latest.items() if r.startswith('DISCARDED')]
+    nocompile=[n for n in d if 'rc=2' in latest[n] and 'rc=0' not in latest[n] and 'rc=1' not in latest[n]]
+    sv=[n for n,r in latest.items() if r.startswith('SURVIVED')]
+    out=["# Systematic mutants (tools/automut.py)","",
+    "One operator application per mutant (relational / boolean / arithmetic operator swaps, integer literal + 1, `?` dropped, address guard removed) on every code line of the library sources outside doc comments and test modules. `mutants/run.sh --checks-first` runs the checks of the properties anchored in the mutated file against a scratch copy; only mutants that survive them are run through the repository's own suite.","",
+    "* generated: %d (in `mutants/auto/`), results recorded: %d"%(len(os.listdir(os.path.join(here,'mutants','auto'))),len(latest)),
+    "* **killed by a check: %d**"%k,
+    "* discarded: %d (of which %d do not compile — harness build fails too; the rest are caught by the repository's suite but change nothing our properties speak about, see below)"%(len(d),len(nocompile)),
+    "* survived checks and suite: %d — each triaged below"%len(sv),"",
+    "## Survivors","","| mutant | triage |","|---|---|"]
+    def why(n):
+        for t in tri:
+            if t['match'] in n and (not t.get('files') or any('auto_'+f+'_' in n for f in t['files'])): return t['reason']
+        return 'UNTRIAGED'
+    for n in sorted(sv): out.append("| %s | %s |"%(n,why(n)))
+    caught_by_suite_only=[n for n in d if n not in nocompile]
+    out+=["","## Caught by the repository's suite but not by our checks","","| mutant | our checks | triage |","|---|---|---|"]
+    for n in sorted(caught_by_suite_only): out.append("| %s | %s | %s |"%(n,latest[n][latest[n].find('our checks'):].rstrip(')')[:80],why(n)))
+    out.append("")
+    open(os.path.join(here,'mutants','AUTO_RESULTS.md'),'w').write('\n'.join(out))
+    print('mutants/AUTO_RESULTS.md: killed',k,'discarded',len(d),'(no-compile',len(nocompile),') survived',len(sv),'untriaged',sum(1 for n in sv+caught_by_suite_only if why(n)=='UNTRIAGED'))
